@@ -48,7 +48,7 @@ var disabledURL = map[string]string{urlEth: "eth", urlVest: "vesting", urlVestPe
 // laneVerdict is what the reference predicate says about one transaction.
 type laneVerdict struct {
 	Decodable  bool
-	EthShaped  bool     // exactly one top-level message and it is an Ethereum message
+	EthShaped  bool // exactly one top-level message and it is an Ethereum message
 	MustReject bool
 	Reasons    []string // sorted, de-duplicated classifier reasons
 	MaxDepth   int      // deepest message nesting seen (top level = 0)
